@@ -12,13 +12,30 @@ macro_rules! format_ident {
 }
 macro_rules! quote {
     (# $vis:ident # $name:ident : # $ty:ident ,) => { crate::proc_macro2::TokenStream::Field($ty.clone()) };
+    // --- shapes of the CompInfo::codegen region (kernel `driver`) ---
+    (pub _address : u8 ,) => { crate::proc_macro2::TokenStream::Field(crate::syn::prim(1)) };
+    (pub _bindgen_opaque_blob : # $ty:ident ,) => { crate::proc_macro2::TokenStream::Field($ty.clone()) };
+    (pub bindgen_union_field : # $ty:ident ,) => { crate::proc_macro2::TokenStream::Field($ty.clone()) };
+    (_unused : [u8 ; 0] ,) => { crate::proc_macro2::TokenStream::Field(crate::syn::Type { size: 0, align: 1, elems: 0, wrapped: false }) };
+    (FAM : ? Sized = [ # $inner:ident ; 0 ]) => { crate::proc_macro2::TokenStream::Other };
+    (# $inner:ident) => { crate::proc_macro2::TokenStream::Other };
+    ([ # $ty:ident ; 0 ]) => { crate::proc_macro2::TokenStream::Other };
+    (< # ( # $g:ident , ) * # $f:ident >) => { crate::proc_macro2::TokenStream::Other };
+    (< # ( # $g:ident , ) * >) => { crate::proc_macro2::TokenStream::Other };
+    () => { crate::proc_macro2::TokenStream::Other };
+    (u64) => { crate::proc_macro2::TokenStream::AlignTy(8) };
+    (u32) => { crate::proc_macro2::TokenStream::AlignTy(4) };
+    (u16) => { crate::proc_macro2::TokenStream::AlignTy(2) };
+    (u8) => { crate::proc_macro2::TokenStream::AlignTy(1) };
+    (pub _bindgen_align : [ # $t:ident ; 0 ] ,) => { match $t { crate::proc_macro2::TokenStream::AlignTy(a) => crate::proc_macro2::TokenStream::AlignField(a), _ => crate::proc_macro2::TokenStream::Other } };
+    (# [repr (align (# $e:ident))]) => { crate::proc_macro2::TokenStream::ReprAlign($e) };
 }
 pub mod proc_macro2 {
     #[derive(Debug, Clone, Copy)] pub struct Ident(pub usize);
     #[derive(Debug, Clone, Copy)] pub struct Span;
     impl Span { pub fn call_site() -> Span { Span } }
     impl Ident { pub fn new(_: &str, _: Span) -> Ident { Ident(0) } }
-    #[derive(Debug, Clone, Copy)] pub enum TokenStream { Field(crate::syn::Type) }
+    #[derive(Debug, Clone, Copy)] pub enum TokenStream { Field(crate::syn::Type), Member(usize), AlignTy(usize), AlignField(usize), Repr(usize), ReprAlign(usize), Other }
 }
 pub mod syn {
     /// Rust layout of the emitted type. `elems`: 0 = scalar/opaque wrapper, n = plain array of n elements
@@ -53,7 +70,7 @@ use std::cmp;
 pub enum FieldVisibilityKind { Private, PublicCrate, Public }
 #[derive(Debug, Clone, Copy)] pub struct Vis;
 pub fn access_specifier(_: FieldVisibilityKind) -> Vis { Vis }
-#[derive(Debug)] pub struct Options { pub force_explicit_padding: bool, pub enable_cxx_namespaces: bool }
+#[derive(Debug)] pub struct Options { pub force_explicit_padding: bool, pub enable_cxx_namespaces: bool, pub flexarray_dst: bool }
 #[derive(Debug)] pub struct BindgenContext { pub opts: Options, pub ptr_size: usize }
 impl BindgenContext {
     pub fn options(&self) -> &Options { &self.opts }
